@@ -275,7 +275,7 @@ def run(ctx):
         attempts += 1
         rule, what, inq = gen_case(rng)
         try:
-            robj = proto.build_rule(rule)
+            robj = proto.build_rule(rule, alias=rng)
             rline = proto.enc_rule(rule)
             wline = proto.enc_value(what)
         except (TypeError, proto.ProtoError, re.error):
